@@ -53,6 +53,7 @@ def run(prog, chk):
     geomalg.check_sites(prog, chk, "C11")
     emission_algebra(prog, chk)
     extraction_algebra(prog, chk)
+    shape_pipeline(prog, chk)
 
 
 def _arms(owner):
@@ -517,3 +518,21 @@ def extraction_algebra(prog, chk):
                         bad.append(f"<{shape} {' '.join(sorted(present))}>: Position.{k} is {A.canon(g.get(k))}, expected {A.canon(want[k])}")
     chk.floor("A17.extraction", n, 200, "shape x constraint pair x spelling case of Position::from")
     chk.ob(not bad, "A17.extraction", "Position::from", b.where(), f"all {n} shape / constraint-pair / spelling cases read each attribute into the field of its role", f"{len(bad)} of {n} cases are read wrongly, e.g. {bad[0] if bad else ''}" + (f"; {bad[1]}" if len(bad) > 1 else ""))
+
+
+def shape_pipeline(prog, chk):
+    """a graphics element reaches the output through the shape pipeline (SvgElement::generate_events -> resolve_position
+    -> set_position_attrs), whatever its XML spelling: in Container::generate_events the raw `Start(element)` emission must
+    be unreachable for a graphics element (a) without content, (b) with child elements"""
+    b = prog.body("<svgdx::transform::Container as svgdx::transform::EventGen>::generate_events")
+    chk.touch(b)
+    raw = {x for x, i, st in b.all_stmts() if st.get("rv", {}).get("k") == "aggr" and st["rv"].get("adt") == "svgdx::events::OutputEvent" and st["rv"].get("variant") == "Start"}
+    is_g = lambda c: c.path == "svgdx::element::SvgElement::is_graphics_element"
+    is_e = lambda c: c.path == "svgdx::events::InputList::is_empty"
+    if not raw or not b.call_sites(is_g):
+        chk.anchor_missing("A13.shape-pipeline", "Container::generate_events: raw Start emission / is_graphics_element() test not found")
+        return
+    a = R.may_reach(b, raw, R.call_result_assumption(b, [(is_g, True), (is_e, True)]))
+    chk.ob(not a, "A13.shape-pipeline", "Container:empty-content", b.where(), "a graphics element written `<rect ..></rect>` (no content) is processed as a shape, like `<rect ../>`", "a graphics element with separate start and end tags but no content is emitted by Container as written: it is never positioned and its svgdx attributes (xy, wh, surround, margin ...) are copied to the output")
+    c = R.may_reach(b, raw, R.call_result_assumption(b, [(is_g, True), (is_e, False)]))
+    chk.ob(not c, "A13.shape-pipeline", "Container:child-elements", b.where(), "a graphics element with child elements is processed as a shape", "a graphics element that has child elements (`<rect xy=.. wh=..><title>..</title></rect>`) is emitted by Container as written: it is not positioned and its svgdx attributes stay in the output")
